@@ -769,6 +769,7 @@ BASE_MODELS = [
     (r'Result::<.*>::map::', m_res_map), (r'Result::<.*>::map_err::', m_map_err), (r'Result::<.*>::and_then::', m_res_and_then),
     (r'Result::<.*>::ok$', m_res_ok), (r'Result::<.*>::is_ok$', lambda ex, a, c: dv(a[0]).discr == 0),
     (r'Result::<.*>::is_err$', lambda ex, a, c: dv(a[0]).discr == 1),
+    (r'Result::<.*>::err$', lambda ex, a, c: ex.some(ex.payload(dv(a[0]))) if dv(a[0]).discr == 1 else ex.none()),
     (r' as Try>::branch$', m_try_branch), (r' as FromResidual<.*>>::from_residual$', m_from_residual),
     (r'str>::starts_with::<(char|&str)>$', need_str(lambda s, c: s.startswith(c))), (r'str>::ends_with::<char>$', need_str(lambda s, c: s.endswith(c))),
     (r'str>::find::<char>$', m_find_char), (r'str>::to_uppercase$', need_str(lambda s: s.upper())),
